@@ -31,8 +31,16 @@ pub enum Src {
     SwapRemove(usize, usize),
     /// element yielded by `vecs[w].drain(j..j+1)`
     Drained(usize, usize),
-    /// lazy clone (chain depth 1..=3) of an element / handle of vector `w` at index `j`
+    /// lazy clone (chain depth 1..=3) of an element / handle of vector `w` at index `j`;
+    /// depth 11 / 12: depth 1 / 2 consumed through `push_unchecked` / `insert_unchecked`; depth 21: built with `LazyClone::new`
     Lazy(LazySrc, usize, usize, u8),
+    /// `vecs[w].pop()` handle consumed through `push_unchecked` / `insert_unchecked`
+    HandleUnchecked(usize),
+    /// a user-implemented `AnyValue` with a statically known `Type`, larger than the element, whose `move_into` trusts
+    /// the byte size it is given
+    UserTyped(Id),
+    /// a lazy clone of a user-implemented cloneable value with a statically known `Type` (dropped after the call)
+    UserLazy(Id),
 }
 
 #[derive(Clone, Copy, Debug, PartialEq, Eq)]
@@ -391,6 +399,9 @@ impl fmt::Display for Src {
             Src::TypelessRaw(i) => write!(f, "TypelessRaw#{i}"),
             Src::SizelessRaw(i) => write!(f, "SizelessRaw#{i}"),
             Src::Pop(w) => write!(f, "v{w}.pop()"),
+            Src::HandleUnchecked(w) => write!(f, "unchecked:v{w}.pop()"),
+            Src::UserTyped(i) => write!(f, "UserTyped#{i}"),
+            Src::UserLazy(i) => write!(f, "Lazy(UserTyped#{i})"),
             Src::Remove(w, j) => write!(f, "v{w}.remove({j})"),
             Src::SwapRemove(w, j) => write!(f, "v{w}.swap_remove({j})"),
             Src::Drained(w, j) => write!(f, "v{w}.drain({j}..{})[0]", j + 1),
